@@ -35,8 +35,11 @@ def batch_case(draw):
     trx = [{'type_variety': 'T0', 'frequency': {'min': si['f_min'], 'max': si['f_max']}, 'mode': [
         {'format': 'm0', 'baud_rate': 32e9, 'OSNR': 70 if hi else draw(st.sampled_from([8, 11])), 'bit_rate': 100e9,
          'roll_off': 0.15, 'tx_osnr': 40, 'min_spacing': 50e9, 'cost': 1,
-         'penalties': [{'chromatic_dispersion': 4e4, 'penalty_value': 0}, {'chromatic_dispersion': 1e5, 'penalty_value': 0.5},
-                       {'pmd': 30, 'penalty_value': 0}, {'pmd': 60, 'penalty_value': 0.5}]},
+         # tables whose slopes start at 0, so that every route carries a non-zero penalty (CD ps/nm, PMD ps, PDL dB)
+         'penalties': [{'chromatic_dispersion': 0, 'penalty_value': 0},
+                       {'chromatic_dispersion': draw(st.sampled_from([4e3, 2e4, 1e5])), 'penalty_value': draw(st.sampled_from([0.5, 1.5]))},
+                       {'pmd': 0, 'penalty_value': 0}, {'pmd': draw(st.sampled_from([5, 30])), 'penalty_value': 0.5},
+                       {'pdl': 0, 'penalty_value': 0}, {'pdl': 8, 'penalty_value': 2}]},
         {'format': 'm1', 'baud_rate': 28e9, 'OSNR': 70 if hi else 9, 'bit_rate': 100e9, 'roll_off': 0.15,
          'tx_osnr': 45, 'min_spacing': 37.5e9, 'cost': 2},
         {'format': 'm2', 'baud_rate': 64e9, 'OSNR': 70 if hi else draw(st.sampled_from([14, 17])), 'bit_rate': 200e9,
@@ -96,18 +99,32 @@ def metric(pm, name):
 
 
 def expected_metrics(rx, req):
+    """name -> exact value (str / given number) or ('2dec', unrounded receiver value)"""
     import numpy as np
 
     def pen(name):
         if name not in rx.penalties:
             return 'not evaluated'
-        v = round(float(np.mean(rx.penalties[name])), 2)
-        return 'Infinity' if math.isinf(v) else v
-    return {'SNR-bandwidth': round(float(np.mean(rx.snr)), 2), 'SNR-0.1nm': round(float(np.mean(rx.snr_01nm)), 2),
-            'OSNR-bandwidth': round(float(np.mean(rx.osnr_ase)), 2), 'OSNR-0.1nm': round(float(np.mean(rx.osnr_ase_01nm)), 2),
-            'lowest_SNR-0.1nm': round(float(np.min(rx.snr_01nm)), 2), 'biggest_SNR-0.1nm': round(float(np.max(rx.snr_01nm)), 2),
+        v = float(np.mean(rx.penalties[name]))
+        return 'Infinity' if math.isinf(v) else ('2dec', v)
+    return {'SNR-bandwidth': ('2dec', float(np.mean(rx.snr))), 'SNR-0.1nm': ('2dec', float(np.mean(rx.snr_01nm))),
+            'OSNR-bandwidth': ('2dec', float(np.mean(rx.osnr_ase))), 'OSNR-0.1nm': ('2dec', float(np.mean(rx.osnr_ase_01nm))),
+            'lowest_SNR-0.1nm': ('2dec', float(np.min(rx.snr_01nm))), 'biggest_SNR-0.1nm': ('2dec', float(np.max(rx.snr_01nm))),
             'PDL_penalty': pen('pdl'), 'CD_penalty': pen('chromatic_dispersion'), 'PMD_penalty': pen('pmd'),
             'reference_power': req.power, 'path_bandwidth': req.path_bandwidth}
+
+
+def metric_ok(got, want):
+    """a reported metric equals the receiver's value rounded to two decimals: it has at most two decimals and lies within
+    half a unit of the second decimal of the unrounded value (either neighbour on a tie: binary floats have no exact ties,
+    and numpy / Python round them differently)"""
+    if isinstance(want, tuple):
+        if isinstance(got, bool) or not isinstance(got, (int, float)):
+            return False
+        return abs(got * 100 - round(got * 100)) < 1e-6 and abs(got - want[1]) <= 0.005 + 1e-9
+    if isinstance(want, float) and isinstance(got, (int, float)):
+        return abs(got - want) < 1e-12
+    return got == want
 
 
 def run(case, ctx):
@@ -224,7 +241,7 @@ def run(case, ctx):
             exp = expected_metrics(pth[-1], q)
             for name, val in exp.items():
                 got = metric(props['path-metric'], name)
-                if got != val and not (isinstance(val, float) and isinstance(got, (int, float)) and abs(got - val) < 1e-12):
+                if not metric_ok(got, val):
                     ctx.violation(f'metric-differs-from-receiver:{name}', f'{tag}: reported {got!r}, receiver gives {val!r}')
                     break
             if want_bidir and rpth:
@@ -234,7 +251,7 @@ def run(case, ctx):
                     exp_r = expected_metrics(rpth[-1], q)
                     for name, val in exp_r.items():
                         got = metric(props['z-a-path-metric'], name)
-                        if got != val:
+                        if not metric_ok(got, val):
                             ctx.violation(f'reverse-metric-differs-from-reverse-receiver:{name}',
                                           f'{tag}: reported {got!r}, reverse receiver gives {val!r}')
                             break
@@ -253,13 +270,14 @@ def run(case, ctx):
                 row_expect['spectrum (N,M)'] = f'{list(q.N)}, {list(q.M)}'
             if mode:
                 row_expect['min required OSNR (inc. margin)'] = repr(mode['OSNR'] + margins)
-                row_expect['SNR-0.1nm (min)'] = repr(exp['lowest_SNR-0.1nm'])
-                row_expect['SNR-0.1nm (average)'] = repr(exp['SNR-0.1nm'])
-                row_expect['OSNR-0.1nm (average)'] = repr(exp['OSNR-0.1nm'])
+                # the CSV states the values of the response (compared with the receiver above)
+                row_expect['SNR-0.1nm (min)'] = repr(metric(props['path-metric'], 'lowest_SNR-0.1nm'))
+                row_expect['SNR-0.1nm (average)'] = repr(metric(props['path-metric'], 'SNR-0.1nm'))
+                row_expect['OSNR-0.1nm (average)'] = repr(metric(props['path-metric'], 'OSNR-0.1nm'))
             row_expect['path'] = ' | '.join(e.uid for e in pth)
             # a served request cleared the margin-inclusive threshold: the worst channel is above it
-            if not reason and mode and exp['lowest_SNR-0.1nm'] < mode['OSNR'] + margins:
-                ctx.violation('served-although-below-threshold', f'{tag}: min SNR {exp["lowest_SNR-0.1nm"]} < {mode["OSNR"] + margins}')
+            if not reason and mode and exp['lowest_SNR-0.1nm'][1] < mode['OSNR'] + margins - 0.005 - 1e-9:
+                ctx.violation('served-although-below-threshold', f'{tag}: min SNR {exp["lowest_SNR-0.1nm"][1]} < {mode["OSNR"] + margins}')
         if csv_rows is not None:
             row = csv_rows[k]
             for key, val in row_expect.items():
